@@ -774,6 +774,17 @@ class Interp:
                 return self.world.opaque_attrs[name](obj, self)
             if name in self.world.opaque_sigs:
                 return BoundMethod(obj, name)
+            if getattr(self.world, 'opaque_attr_default', False) and \
+                    not hasattr(str, name) and not name.startswith('__'):
+                # a data attribute of an opaque object: an uninterpreted
+                # function of the object and of the number of effectful
+                # calls logged so far (any logged call may have changed it)
+                from . import models
+                self.world.trusted_used.add(
+                    'opaque attribute .%s read as a function of (object, '
+                    'call-log length)' % name)
+                return models.apply_uf('attr.' + name,
+                                       (obj, len(self.calls)), 'Val')
             if hasattr(str, name) and not name.startswith('__'):
                 # a str method on an untyped value: a str has it; None /
                 # bool / int / float raise AttributeError; anything else is
